@@ -72,7 +72,7 @@ class CachingLoaderMixin(ABC, _CachingLoaderProtocol):
 
     def _check_cache(
         self,
-        env: Environment,  # noqa: ARG002
+        env: Environment,
         cache_key: str,
         globals: Mapping[str, object] | None,  # noqa: A002
         load_func: Callable[[], Template],
@@ -84,7 +84,11 @@ class CachingLoaderMixin(ABC, _CachingLoaderProtocol):
             self.cache[cache_key] = template
             return template
 
-        if self.auto_reload and not cached_template.is_up_to_date():
+        # A template is bound to the environment that parsed it (its tags, filters,
+        # escaping, limits and undefined type). It is not an answer for another one.
+        if cached_template.env is not env or (
+            self.auto_reload and not cached_template.is_up_to_date()
+        ):
             template = load_func()
             self.cache[cache_key] = template
             return template
@@ -96,7 +100,7 @@ class CachingLoaderMixin(ABC, _CachingLoaderProtocol):
 
     async def _check_cache_async(
         self,
-        env: Environment,  # noqa: ARG002
+        env: Environment,
         cache_key: str,
         globals: Mapping[str, object] | None,  # noqa: A002
         load_func: Callable[[], Awaitable[Template]],
@@ -108,7 +112,9 @@ class CachingLoaderMixin(ABC, _CachingLoaderProtocol):
             self.cache[cache_key] = template
             return template
 
-        if self.auto_reload and not await cached_template.is_up_to_date_async():
+        if cached_template.env is not env or (
+            self.auto_reload and not await cached_template.is_up_to_date_async()
+        ):
             template = await load_func()
             self.cache[cache_key] = template
             return template
